@@ -63,7 +63,7 @@ CLAIMS = {
           "(R2) in both write loops the target pack is re-selected before every object, with a known size that is a tell() not invalidated by a later write/seek/truncate, compared with the locked id (different => re-lock), and the locked id comes from the selector; "
           "(R2s) the selector starts at the cached id or 0, advances by exactly 1, stops at the first missing or strictly-below-target pack, compares the caller's known size when given (else stat) and caches exactly the returned id; (R1x) the lock file is created exclusively (mode 'x') around the append handle; (R3) seek only to a tell() of the same iteration, truncate() without size. "
           "Does NOT decide byte-for-byte immutability over histories as values."),
-    note="Trusted: O_APPEND never overwrites; exclusive lock file = one packer.",
+    note="Trusted: O_APPEND never overwrites; exclusive lock file = one packer. Also hosts the rule module of C03 (rows must never designate bytes beyond the end of a pack).",
     technique="kind-resolved ownership scan + per-iteration typestate on ICFGs + structural checks of the selector", ref="5/C13"),
  'C07': dict(
     text=("Decides API-contract shape clauses of the stream classes: (R1) in PackedObjectReader.seek, for each whence value, lower and upper bounds are checked on the variable that determines the new handle position after its last assignment and before the handle moves; "
@@ -84,7 +84,7 @@ CLAIMS = {
           "(R3) same hash algorithm: only Location.LEFTONLY keys of the sorted merge are transferred; different algorithms: constant propagation shows no_holes=True and no_holes_read_twice=True at every add call; "
           "(R4) the old/new key lists of the returned mapping grow in lockstep (paired append / extension from one zip(*cache.items()) whose contents are what is added), the cache is reset with every in-loop flush and flushed after the loop; (R5) direction: objects are read from the source container parameter, existence listing / writes / commit happen on self, and the fast path is chosen by comparing the two containers' hash types. "
           "Does NOT decide byte identity of transferred objects."),
-    note="Assumes add_objects_to_pack returns keys in input order (C01/C09 rules) and dict insertion order. Also hosts the rule module of C01 (the direct-to-pack write path must round-trip).",
+    note="Assumes add_objects_to_pack returns keys in input order (C01/C09 rules) and dict insertion order. Also hosts the rule module of C01 (the direct-to-pack write path must round-trip). Also hosts the rule module of C09 (the no_holes de-duplication import relies on).",
     technique="linear typestate + constant propagation on ICFGs + def-use matching", ref="5/C14"),
  'C15': dict(
     text=("Decides structural clauses of backup_container: (R1) copy steps classified by the kind of their source path run in the order loose -> index dump -> copy of the dump -> packs -> rest on every path; "
@@ -131,7 +131,7 @@ CLAIMS = {
           "(R2) the funnel de-duplicates the request once, probes loose only for keys not found in the index, skip_if_missing guards only MISSING yields, has_objects answers element-wise over the original list; "
           "(R3) every paging loop (discovered by def-use: a SELECT whose WHERE mentions a local the loop updates): id > last (strict) as the only filter, ORDER BY id, LIMIT, last = id of the last row, start -1, stop on empty page, all rows consumed; (R4) detect_where_sorted guards (new <= last -> ValueError on both sides, left_key applied), chunk_iterator / merge_sorted shapes, IN batch <= 999; (R5) the merge control logic of detect_where_sorted by abstract interpretation of its source over a finite domain (boolean locals; order of the two current elements <,=,>; next() = element | StopIteration), to a fixed point from the function entry: in every reachable abstract state one iteration yields exactly one element with the Location the order demands (never a stale element of an exhausted side), advances exactly the yielded side(s), and the loop ends only with both sides exhausted and nothing pending -- the inductive step of a min-first merge. "
           "Does NOT decide SQLite's ORDER BY collation agreeing with Python's string order, nor the behaviour on unsorted input beyond the guards."),
-    note="SQLITE_MAX_VARIABLE_NUMBER >= 999; SQLite and Python order hex keys identically.",
+    note="SQLITE_MAX_VARIABLE_NUMBER >= 999; SQLite and Python order hex keys identically. Also hosts the rule module of C14 (importing is one of the bulk operations of the property).",
     technique="sibling-term extraction and comparison over AST/SQL terms + finite-domain abstract interpretation of the merge helper", ref="5/C16"),
 }
 
